@@ -30,6 +30,8 @@ def hash_to_range(key, value, f):
 
 
 def hashed_items(key, items):
+    # BIP158: the elements form a set, an element listed twice counts once
+    items = set(bytes(item) for item in items)
     n = len(items)
     f = n * GOLOMB_M
     result = []
